@@ -6,6 +6,12 @@ HOOK_COMMITS = ["630d187"]
 
 # id -> (technique, level text, level note, design ref)
 CHECKS = {
+    "C01": (
+        "exhaustive enumeration of all programs up to N statements (every composition over lines, three entry modes, all reply scripts) executed on the real interpreter in lockstep with a reference statement interpreter",
+        "Every program of the bounded space (quick: N<=2 full alphabet, N=3 medium, N=4 core; thorough: N<=3 full, N=4 medium, N=5 core) is run through lexer, parser, codegen, linker and VM and its transcript (output, trace brackets, prompts, terminating condition with line) compared with a reference interpreter written from the manual; smallest counterexample first. Exhaustive within the bound (small-scope hypothesis for larger programs).",
+        "Trusts the reference interpreter (refmodel/interp.rs) as the reading of the manual; programs it marks undefined are skipped and counted; diverging programs are compared on a prefix.",
+        "DESIGN.md §3 C01",
+    ),
     "C08": (
         "exhaustive enumeration of operand tuples (all 2^32 pairs per operator in the thorough tier) on the real Operation/Function entry points and through the VM, against an exact-arithmetic reference",
         "Every Integer operator is run on every operand pair of the stated bound (quick: every row/column through 65 boundary values, all 65536 unary operands; thorough: all 2^32 pairs) and compared with exact i64 arithmetic; a wrapped value, a wrong error or a panic on any pair is reported. Exhaustive within the bound, which for the thorough tier is the whole input space of the property.",
